@@ -510,6 +510,9 @@ func (p c09) Run(w *mon.Worker, idx int) mon.Result {
 	if idx%40 == 33 {
 		return c09PrefixFnCase(w, r)
 	}
+	if idx%40 == 13 {
+		return c09UnionChainCase(w, r)
+	}
 	cs := gen.C09Generate(r, idx-1)
 	e := cs.Expr
 	st := e.Stats()
